@@ -3,7 +3,7 @@ A callee that is neither crate-local nor listed here is reported as `unmodelled`
 import math
 
 from . import ops
-from .domain import (INT_TYPES, BoolV, ClosureV, EnumV, FloatV, FnV, IntV, IterV, OpaqueV, RefV, StrV, StructV, Top, TupleV,
+from .domain import (INT_TYPES, BoolV, ClosureV, EnumV, FloatV, FnV, IntV, IterV, LayoutV, OpaqueV, RefV, StrV, StructV, Top, TupleV,
                      VecV, deps_of, fresh_sid, join, ty_range)
 from .interp import Diverge, State
 
@@ -376,6 +376,20 @@ def m_try_into(I, st, c, args, body, t):
     return st, EnumV(RES, {"Ok": ((Top(deps_of(a), "try_into"),), {}), "Err": ((OpaqueV("TryFromIntError"),), {})})
 
 
+def m_int_from(I, st, c, args, body, t):
+    """lossless integer conversions `u32::from(u8)` etc."""
+    a = deref(I, st, args[0])
+    ga = c.get("generic_args") or []
+    to = ga[0] if ga else None
+    if c.get("name") == "into" and len(ga) > 1:
+        to = ga[1]
+    if isinstance(a, IntV) and to in INT_TYPES:
+        return st, ops.cast_int(a, to)
+    if isinstance(a, BoolV) and to in INT_TYPES:
+        return st, IntV.const(to, int(a.val)) if a.val is not None else IntV(to, None, 0, 1, None, a.deps)
+    return st, Top(deps_of(a), "From::from")
+
+
 def m_abs_diff(I, st, c, args, body, t):
     a, b = deref(I, st, args[0]), deref(I, st, args[1])
     if isinstance(a, IntV) and isinstance(b, IntV):
@@ -539,6 +553,10 @@ def drive(I, st, it, from_pos=None, one=False):
         idx = pos
         pos += 1
         cond = "always"
+        if (isinstance(e, OpaqueV) and e.ty == "byte*") or (isinstance(e, IntV) and e.term and e.term[0] == "hexbyte"):
+            st, emitted = _drive_bytes(I, st, it, e)
+            out.extend(emitted)
+            continue
         multi = isinstance(e, OpaqueV) and e.ty == "char*"   # zero or more junk chars
         if multi:
             e = IntV("char", None, 0, 0x10FFFF, None, frozenset(), None, ("nonhexchar",))
@@ -760,6 +778,52 @@ def m_chars(I, st, c, args, body, t):
             src.append(OpaqueV("char*"))
         return st, IterV(src)
     return st, IterV(None, unknown=True, deps=deps_of(s))
+
+
+HEX_BYTES = {}
+for _i, _ch in enumerate("0123456789abcdef"):
+    HEX_BYTES[ord(_ch)] = _i
+for _i, _ch in enumerate("ABCDEF"):
+    HEX_BYTES[ord(_ch)] = 10 + _i
+
+
+def m_bytes(I, st, c, args, body, t):
+    """str::bytes / as_bytes().iter() on the abstract line: zero-or-more non-hex bytes around each hex-digit byte"""
+    s = deref(I, st, args[0])
+    if isinstance(s, StrV) and s.skind == "lit":
+        return st, IterV([IntV.const("u8", b) for b in s.text.encode()])
+    if isinstance(s, StrV) and s.skind == "line":
+        src = [OpaqueV("byte*")]
+        for d in s.digits:
+            src.append(IntV("u8", None, 0x30, 0x66, None, deps_of(d), None, ("hexbyte", d)))
+            src.append(OpaqueV("byte*"))
+        return st, IterV(src)
+    return st, IterV(None, unknown=True, deps=deps_of(s))
+
+
+def _drive_bytes(I, st, it, e):
+    """evaluate the pipeline stages on every concrete byte an abstract line byte can be.
+    -> list of (cond, value) to emit"""
+    sub = IterV([], 0, it.stages)
+    if isinstance(e, OpaqueV):      # junk: every non-hex byte value must be dropped
+        for b in range(256):
+            if b in HEX_BYTES:
+                continue
+            one = IterV([IntV.const("u8", b)], 0, it.stages)
+            st, out, _ = drive(I, st, one)
+            if out:
+                return st, [("many", Top(frozenset(), "a non-hex byte (0x%02x) is kept by the digit filter" % b))]
+        return st, []
+    d = e.term[1]
+    ty = None
+    for b, nib in sorted(HEX_BYTES.items()):
+        one = IterV([IntV.const("u8", b)], 0, it.stages)
+        st, out, _ = drive(I, st, one)
+        if len(out) != 1 or out[0][0] != "always" or not (isinstance(out[0][1], IntV) and out[0][1].is_const() and out[0][1].lo == nib):
+            return st, [("maybe", Top(deps_of(d), "hex digit byte 0x%02x is not mapped to its value" % b))]
+        ty = out[0][1].ty
+    v = d if d.ty == ty else ops.cast_int(d, ty)
+    return st, [("always", v)]
 
 
 def m_to_digit(I, st, c, args, body, t):
@@ -1183,6 +1247,7 @@ class Models:
         E["std::iter::Iterator::all"] = m_all_any
         E["std::iter::Iterator::any"] = m_all_any
         E["core::str::<impl str>::chars"] = m_chars
+        E["core::str::<impl str>::bytes"] = m_bytes
         E["std::char::methods::<impl char>::to_digit"] = m_to_digit
         E["std::char::methods::<impl char>::from_u32"] = m_from_u32
         E["std::vec::Vec::<T, A>::len"] = m_vec_len
@@ -1250,6 +1315,8 @@ class Models:
                 return self.exact[p]
         if name is None:
             return None
+        if p == "std::iter::IntoIterator::into_iter":
+            return m_into_iter
         if p == "std::iter::Iterator::next" or name.endswith("as std::iter::Iterator>::next") or name.endswith("::next") and "iter" in name:
             return m_iter_next
         if p in ("std::ops::Deref::deref", "std::ops::DerefMut::deref_mut", "std::convert::AsMut::as_mut", "std::convert::AsRef::as_ref",
@@ -1274,6 +1341,8 @@ class Models:
             return m_min_max
         if p == "std::ops::FromResidual::from_residual":
             return m_from_residual
+        if p in ("std::convert::From::from", "std::convert::Into::into") and ("std::convert::num" in name or "core::convert::num" in name):
+            return m_int_from
         if p == "std::cmp::PartialEq::eq":
             return m_partial_eq
         if p == "std::cmp::PartialEq::ne":
@@ -1367,3 +1436,154 @@ def _init2(self):
 
 
 Models.__init__ = _init2
+
+
+# --------------------------------------------------------------------------- formatting as a layout (C14)
+
+def m_fmt_argument(I, st, c, args, body, t):
+    """fmt::rt::Argument::new_*(&x) / from_usize(&n): keep the abstract value that will be printed"""
+    v = deref(I, st, args[0])
+    return st, OpaqueV("fmt::Argument", ("fmtarg", c.get("name"), v), deps_of(v))
+
+
+def _site_of(I, t):
+    sp = t.get("span") or {}
+    cs = sp.get("callsite") or sp
+    key = (cs.get("file"), cs.get("line"), cs.get("col"))
+    idx = getattr(I, "_fmt_index", None)
+    if idx is None:
+        idx = {}
+        for s in I.facts.fmt_sites:
+            c2 = s["span"].get("callsite") or s["span"]
+            idx[(c2.get("file"), c2.get("line"), c2.get("col"))] = s
+        I._fmt_index = idx
+    return idx.get(key)
+
+
+def m_fmt_arguments_from_str(I, st, c, args, body, t):
+    v = deref(I, st, args[0])
+    site = _site_of(I, t)
+    if site is None and isinstance(v, StrV) and v.skind == "lit":
+        site = {"span": t.get("span") or {}, "pieces": [{"lit": v.text}], "args": []}
+    return st, OpaqueV("fmt::Arguments", ("fmtargs", site, ()), frozenset())
+
+
+def m_fmt_arguments_new(I, st, c, args, body, t):
+    site = _site_of(I, t)
+    vals = []
+    if len(args) > 1:
+        arr = deref(I, st, args[1])
+        if isinstance(arr, VecV) and arr.elems is not None:
+            vals = list(arr.elems)
+    d = frozenset()
+    for v in vals:
+        d |= deps_of(v)
+    return st, OpaqueV("fmt::Arguments", ("fmtargs", site, tuple(vals)), d)
+
+
+def _sources(v):
+    """what a printed value shows: row fields (from the pre-state labels), blank, or other"""
+    if isinstance(v, StrV) and v.skind == "lit":
+        return {("blank",)} if v.text.strip(" ") == "" else {("text", v.text)}
+    out = set()
+    for d in deps_of(v):
+        if isinstance(d, tuple) and d:
+            if d[0] == "ctl":
+                d = d[1]
+                if not (isinstance(d, tuple) and d):
+                    continue
+            if d[0] == "pre":
+                out.add(("field", d[1].split(".")[0].split("[")[0]))
+            elif d[0] == "now":
+                out.add(("clock",))
+    if not out:
+        if isinstance(v, IntV) and v.is_const():
+            return {("const", v.lo)}
+        return {("other", getattr(v, "kind", "?"))}
+    return out
+
+
+def m_write_fmt(I, st, c, args, body, t):
+    """Formatter::write_fmt / fmt::Write::write_fmt on a layout sink: append one source-set per character"""
+    sink = args[0]
+    cur = deref(I, st, sink)
+    a = deref(I, st, args[1]) if isinstance(args[1], RefV) else args[1]
+    ok_res = EnumV(RES, {"Ok": ((TupleV(()),), {})})
+    if not isinstance(cur, LayoutV):
+        if I.side.get("layout_mode"):
+            cur = LayoutV()
+        else:
+            return st, EnumV(RES, {"Ok": ((TupleV(()),), {}), "Err": ((OpaqueV("error"),), {})})
+    if not (isinstance(a, OpaqueV) and a.term and a.term[0] == "fmtargs" and a.term[1] is not None):
+        cur = LayoutV(cur.cells, True, cur.issues + ("a write whose template is not known",))
+    else:
+        site, vals = a.term[1], a.term[2]
+        line = (site["span"].get("callsite") or site["span"]).get("line")
+        for p in site["pieces"]:
+            if "lit" in p:
+                for ch in p["lit"]:
+                    cur = cur.append(1, [("lit", ch)])
+                continue
+            ai = p.get("arg")
+            av = vals[ai] if ai is not None and ai < len(vals) else None
+            pv = av.term[2] if isinstance(av, OpaqueV) and av.term and av.term[0] == "fmtarg" else None
+            w = p.get("width")
+            if isinstance(w, dict):
+                wi = w.get("arg")
+                wv = vals[wi] if wi is not None and wi < len(vals) else None
+                wv = wv.term[2] if isinstance(wv, OpaqueV) and wv.term and wv.term[0] == "fmtarg" else None
+                if isinstance(wv, IntV) and wv.is_const():
+                    w = wv.lo
+                else:
+                    cur = LayoutV(cur.cells, True, cur.issues + ("line %s: width is not a constant (%r)" % (line, wv),))
+                    w = 1
+            if w is None:
+                w = 1        # unpadded char / single digit: minimum display width
+            srcs = _sources(pv) if pv is not None else {("other", "?")}
+            # the cell is also "about" the row fields that decided this branch (filled vs blank arm of a column)
+            for d in st.ctl_deps():
+                if isinstance(d, tuple) and d and d[0] == "pre":
+                    srcs = set(srcs) | {("field", d[1].split(".")[0].split("[")[0])}
+            if len(srcs) > 1:
+                srcs = {x for x in srcs if x[0] not in ("other", "const")} or srcs
+            # alignment rules
+            numeric = isinstance(pv, (IntV, FloatV)) and not (isinstance(pv, IntV) and pv.ty == "char")
+            text = isinstance(pv, StrV)
+            if numeric and p.get("align") == "<":
+                cur = cur.with_issue("line %s: a number is left-aligned" % line)
+            if text and p.get("align") == ">" and not (isinstance(pv, StrV) and pv.skind == "lit" and pv.text == ""):
+                cur = cur.with_issue("line %s: text is right-aligned" % line)
+            cur = cur.append(w, srcs)
+    if isinstance(sink, RefV):
+        I.set_path(st, sink.cell, sink.proj, cur)
+    return st, ok_res
+
+
+def _extend2(models):
+    E = models.exact
+    for nm in ("std::fmt::Formatter::<'a>::write_fmt", "core::fmt::Formatter::<'a>::write_fmt", "std::fmt::Write::write_fmt"):
+        E[nm] = m_write_fmt
+    E["std::fmt::Arguments::<'a>::new"] = m_fmt_arguments_new
+    E["std::fmt::Arguments::<'a>::from_str"] = m_fmt_arguments_from_str
+    E["std::fmt::Arguments::<'a>::new_const"] = m_fmt_arguments_from_str
+
+
+_orig_init2 = Models.__init__
+
+
+def _init3(self):
+    _orig_init2(self)
+    _extend2(self)
+
+
+Models.__init__ = _init3
+_orig_lookup = Models.lookup
+
+
+def _lookup2(self, callee, name):
+    if name and name.startswith("core::fmt::rt::Argument::"):
+        return m_fmt_argument
+    return _orig_lookup(self, callee, name)
+
+
+Models.lookup = _lookup2
